@@ -7,10 +7,10 @@ def E(technique, text, note, ref):
     return dict(technique=technique, text=text, note=note, ref=ref)
 COMMON_NOTE = " Trusted base: CPython, NumPy, the pyxabmon harness (driver, ledger, reference models). Open findings are matched by mechanism against known_findings.json."
 CHECKS = {
- "C01": E("runtime monitoring: API-boundary oracle on every pull/receive_reward/get_last_point of the real loop + sys.monitoring logical step budget + injected RNG end-point outcomes",
+ "C01": E("runtime monitoring: API-boundary oracle on every pull/receive_reward/get_last_point of the real loop + sys.monitoring logical step budget + injected RNG end-point outcomes + recommendation probes at intermediate stopping times on deep copies",
           "Exploration by execution: the real ask/tell loop is driven for hundreds (quick) to tens of thousands (thorough) of generated configurations x histories; every returned point is checked against the user's box, every exception and every call exceeding the logical step budget is a violation. Totality over an infinite configuration space cannot be established by running; the evidence says what was run.",
           "Assumes boxes with |lo+hi|<=1e300, SOO/StoSOO caps = smallest cap holding the budget." + COMMON_NOTE, "DESIGN.md 4/C01"),
- "C02": E("runtime monitoring: bit-exact tiling oracle at every make_children (instrumented subclasses + icontract post-condition on the real method), hostile float boxes, injected RNG outcomes, leaf-tiling walker",
+ "C02": E("runtime monitoring: bit-exact tiling oracle at every make_children (instrumented subclasses + icontract post-condition on the real method), hostile float boxes (adjacent floats, subnormal/ulp grids, aliased interval lists), K up to 16, injected RNG outcomes, leaf-tiling walker",
           "Every split performed in partition-only histories on adversarial float boxes and inside runs of every algorithm is checked bit-exactly (containment, shared boundaries, outer faces, arity, equal widths, centres) and the leaves of every final tree are checked to tile the root. Sampled floats, not the continuum.",
           "Equal-width tolerance 4 ulp; |lo+hi|<=1e300." + COMMON_NOTE, "DESIGN.md 4/C02"),
  "C03": E("runtime monitoring: structural invariant walker at quiescent points (after every partition operation / receive_reward / get_last_point) + icontract class invariant on the real partition class",
@@ -19,7 +19,7 @@ CHECKS = {
  "C04": E("runtime monitoring: client-side ledger (point identity -> cell) vs. per-cell statistics after every round; recording subclasses of base learners inside POO/GPO; np.random.choice interception for VROOM",
           "History + executable reference model: the harness records which cell every pull returned and which reward followed; after EVERY round the counts, reward lists, means and variances of all cells reachable from the root (arms, learner scores) must equal those recomputed from the ledger. Exploration over generated histories of all algorithm families.",
           "Means rel. 1e-9; rounds after an algorithm's own termination are known findings." + COMMON_NOTE, "DESIGN.md 4/C04"),
- "C05": E("runtime monitoring: reference model of U/B/thresholds recomputed from the ledger after every round, greedy-path oracle at every pull",
+ "C05": E("runtime monitoring: reference model of U/B/thresholds recomputed from the ledger after every round, greedy-path oracle at every pull, long-horizon runs crossing 2^14/2^15",
           "Every U-value is compared with the published formula recomputed from the raw history, every non-root B with the min/max recursion and every pulled cell's root path with the max-B / threshold rule, after every round of thousands of T-HOO/HCT/VHCT runs (stand-alone and inside the wrappers).",
           "HCT/VHCT judged in the band c1*delta<=1/2; two admissible t+ conventions; three-valued threshold comparisons at rel. 1e-9." + COMMON_NOTE, "DESIGN.md 4/C05"),
  "C06": E("runtime monitoring: make_children events (phase, cell, was-leaf) + expansion rule recomputed from the ledger",
@@ -46,7 +46,7 @@ CHECKS = {
  "C13": E("runtime monitoring: interception of the single np.random.choice call per pull (arguments + outcome), get_rank() read-out, credited-chain observation",
           "Per pull: support, rank permutation, monotonicity in the ledger LCB, p == 1/(h r C) element-wise, sum 1; per round: credited cells form a chain from the drawn cell to the cap, point inside drawn and deepest cell.",
           "NumPy's categorical sampler trusted once its arguments are verified." + COMMON_NOTE, "DESIGN.md 4/C13"),
- "C14": E("runtime monitoring (metamorphic): twin runs in-process and in fresh interpreters with other PYTHONHASHSEED, entropy/clock call counters, interleaved instances vs solo runs, input box fingerprint",
+ "C14": E("runtime monitoring (metamorphic): twin runs in-process and in fresh interpreters with other PYTHONHASHSEED, entropy/clock call counters, interleaved instances vs solo runs, sandwich runs (X, other instance of the class, X) and warm-process vs fresh-interpreter digests, input box fingerprint",
           "Two executions that must agree: same case twice (bit-identical), fresh processes with different hash seeds (digest), two instances interleaved by random schedules vs their solo runs; plus counters of calls from PyXAB code into foreign entropy/clock sources and before/after comparison of the user's box.",
           "Interleaving of RNG-consuming configurations saves/restores NumPy's global state per instance." + COMMON_NOTE, "DESIGN.md 4/C14"),
  "C15": E("runtime monitoring (metamorphic): runs differing only in time labels / inserted get_last_point calls must be bit-identical",
